@@ -285,6 +285,13 @@ fn const_json<'tcx>(tcx: TyCtxt<'tcx>, owner: DefId, c: MirConst<'tcx>) -> J {
                 if let Some(si) = v.try_to_leaf() {
                     return scalar_json(tcx, si, ty);
                 }
+                if let Some(bytes) = v.try_to_raw_bytes(tcx) {
+                    let is_str = matches!(ty.kind(), ty::Ref(_, inner, _) if inner.is_str());
+                    if is_str {
+                        return J::Obj(vec![("str", s(String::from_utf8_lossy(bytes).to_string()))]);
+                    }
+                    return J::Obj(vec![("bytes", J::Arr(bytes.iter().map(|b| J::Int(*b as i128)).collect()))]);
+                }
             }
             J::Obj(vec![("opaque", s("tyconst")), ("ty", s(ty_str(ty)))])
         }
